@@ -50,6 +50,11 @@ def scan_trace(path):
                 st["extend-empty-batch"] += 1
         if e.get("m") == 2:
             st["mirrored-twin-ops"] += 1
+        if op == "deser_struct":
+            st["untrusted-inputs"] += 1
+            st["structured-mutations:" + ("accepted" if e["res"]["ok"] else "rejected")] += 1
+            if e["res"]["ok"] and not e["res"]["same"]:
+                st["untrusted-accepted-modified"] += 1
         if op == "deser_mut":
             st["untrusted-inputs"] += 1
             st["untrusted:" + ("accepted" if e["res"]["ok"] else "rejected")] += 1
